@@ -231,6 +231,7 @@ fn gen_unit(rng: &mut Rng, h: &Init, apps: &[App], oneshot: bool) -> (UnitEnv, S
         }
     }
     u.wakedt = dt(rng);
+    u.burst = rng.chance(1, 3);
     let p = format!("{}:{}:{}", if rng.chance(1, 2) { "od" } else { "st" }, rng.chance(1, 4) as u8, rng.chance(1, 4) as u8);
     u.allow = match rng.below(10) { 0 => "toosoon".into(), 1 => "throttled".into(), 2 => "denied".into(), 3 => format!("okdeferred({})", p), _ => format!("ok({})", p) };
     if oneshot { u.allow = "ok(st:0:0)".into(); }
